@@ -23,11 +23,6 @@ fn main() {
     let cmd = args.get(1).map(|s| s.as_str()).unwrap_or("");
     let code = match cmd {
         "check" => {
-            // minimisation re-executes candidates in this process: a candidate that spins ends it
-            driver::start_watchdog(|task, steps| {
-                eprintln!("HARNESS ERROR: a candidate execution is spinning in task {} after step {} (not minimised further)", task, steps);
-                std::process::exit(2);
-            });
             let id = args.get(2).expect("property id");
             let tier = tier_of(args.get(3).map(|s| s.as_str()).or(std::env::var("VERIF_TIER").ok().as_deref()).unwrap_or("quick"));
             driver::check(id, tier)
@@ -73,13 +68,13 @@ fn main() {
             if args.iter().any(|a| a == "--plan") {
                 println!("{}", serde_json::to_string_pretty(&plan).unwrap());
             }
-            let r = driver::run_one(&prop, &plan, dsim::Tape::search(plan.seed));
-            let max = if args.iter().any(|a| a == "--full") { usize::MAX } else { 200 };
-            for l in driver::render_trace(&r.out, max) {
+            let max = if args.iter().any(|a| a == "--full") { usize::MAX / 2 } else { 200 };
+            let r = driver::run_isolated(&prop, &plan, driver::TapeSpec::Search(plan.seed), false, max);
+            for l in &r.trace {
                 println!("{}", l);
             }
-            println!("outcome {:?} now {:.6}s steps {} nontrivial {}", r.out.outcome, r.out.world.now as f64 / 1e9, r.out.world.steps, r.co.nontrivial);
-            println!("sample {}", r.co.sample.map(|s| s.to_string()).unwrap_or_default());
+            println!("outcome {} now {:.6}s steps {} nontrivial {} crashed {:?}", r.outcome, r.now as f64 / 1e9, r.steps, r.co.nontrivial, r.crashed);
+            println!("sample {}", r.co.sample.as_ref().map(|s| s.to_string()).unwrap_or_default());
             for v in &r.co.violations {
                 println!("violation {} — {}", v.signature, v.detail);
             }
